@@ -202,7 +202,7 @@ func c15U2(r *core.R) {
 		// 1. pending list: the one loop over the raw list that does something with an update after t
 		var pend []*c15Handling
 		for _, h := range all {
-			if h.ev.filtered == nil && len(h.ev.eff[c15OrdAfter]) > 0 {
+			if h.ev.filtered == nil && len(h.ev.eff[c15OrdAfter]) > 0 && w.countingLoop(h.ev) == nil {
 				pend = append(pend, h)
 			}
 		}
@@ -217,7 +217,7 @@ func c15U2(r *core.R) {
 			Q, node, why := w.collector(site, h.ev.eff[c15OrdAfter], []c15Ord{c15OrdAfter})
 			if Q == nil {
 				r.Bad(cp, l.pos(), "for an update stamped after t the loop must do exactly `X = append(X, u)`: %s; later updates are lost or reordered", why)
-			} else if other := w.otherAssigns(l.fn, Q, node); other != "" {
+			} else if other := w.otherAssigns(l.fn, Q, node, l); other != "" {
 				r.Bad(cp, node.Pos(), "the pending list is also changed by `%s`; it must hold exactly the skipped updates in loop order", other)
 			} else if target := w.pathOf(site.env, l.x, true); target == nil || len(target.steps) == 0 {
 				r.Unknown(cp, l.pos(), "the scanned list `%s` is not a field of the element", src(r.P.Fset, l.x))
